@@ -788,7 +788,11 @@ class CircuitOperation(ops.Operation):
                 keys than this operation.
         """
         new_map = {}
-        for k_obj in protocols.measurement_keys_touched(self.circuit):
+        keys_touched = protocols.measurement_keys_touched(self.circuit)
+        if self.repeat_until is not None:
+            # The loop condition may also read keys that are not touched by the circuit.
+            keys_touched = keys_touched | frozenset(self.repeat_until.keys)
+        for k_obj in keys_touched:
             k = k_obj.name
             k_new = self.measurement_key_map.get(k, k)
             k_new = key_map.get(k_new, k_new)
